@@ -3,6 +3,7 @@
 set -e
 cd "$(dirname "$0")"
 export CARGO_NET_OFFLINE=true
+python3 tools/instrument.py
 for c in worlda worldb; do
   (cd harness/$c && cargo build --offline 2>&1 | tail -n 1 && cargo build --offline --release 2>&1 | tail -n 1)
 done
